@@ -140,9 +140,15 @@ def draw_samples(position, H, minimizer, n_samples, mirror_samples, napprox=0,
 
     ntask, rank, _ = get_MPI_params_from_comm(comm)
     for i in range(*shareRange(len(sseq), ntask, rank)):
+        neg = mirror_samples and (i % 2 != 0)
+        if neg and y is None:
+            # The partner of this mirrored sample lives on another task: redraw
+            # it in a context of its own, such that the random stream seen by
+            # the remainder of this iteration does not depend on the task layout
+            with random.Context(sseq[i]):
+                y, yi = met.special_draw_sample(True, device_id=device_id)
         with random.Context(sseq[i]):
-            neg = mirror_samples and (i % 2 != 0)
-            if not neg or y is None:  # we really need to draw a sample
+            if not neg:  # we really need to draw a sample
                 y, yi = met.special_draw_sample(True, device_id=device_id)
 
             if geometric:
